@@ -87,10 +87,12 @@ def store_attr_h5data(obj: Any, group: Group) -> None:
         elif isinstance(value, bytes):
             value = value.decode()
         elif isinstance(value, Mapping) and not isinstance(value, DesignSpace):
-            grname = f"/{name}"
-            if grname in group:
-                del group[grname]
-            new_group = group.require_group(grname)
+            # The mapping is stored next to the group (the reader looks for it there),
+            # in the same node of the file.
+            parent = group.parent
+            if name in parent:
+                del parent[name]
+            new_group = parent.require_group(name)
             store_attr_h5data(value, new_group)
             continue
         elif hasattr(value, "__iter__") and not (
